@@ -32,6 +32,36 @@ def encodable_frame(g, marker, mix, max_body):
     return d, gen.encode_frame(d)
 
 
+TABLE_METHODS = ['Queue.Declare', 'Exchange.Declare', 'Basic.Consume',
+                 'Queue.Bind', 'Connection.StartOk', 'Exchange.Bind']
+
+
+def table_heavy_frame(r, g, marker):
+    """A method or header frame whose table has several keys that no other
+    frame of the run uses (distinct keys drive per-key state)."""
+    from sim.values import to_desc
+    t = {}
+    for j in range(r.randint(2, 8)):
+        t['k%d_%d%s' % (marker, j, r.choice(['', 'x', '\u00e9']))] = \
+            r.choice([j, 'v', True, None, [j], {'n%d' % marker: j}])
+    for _ in range(20):
+        if r.random() < 0.7:
+            name = r.choice(TABLE_METHODS)
+            cls = gen.classes()[name]
+            tn = [s for s in cls.__slots__ if cls.amqp_type(s) == 'table'][0]
+            d = {'k': 'method', 'cls': name, 'ch': g.channel(),
+                 'args': {tn: to_desc(t)}}
+        else:
+            d = {'k': 'header', 'ch': g.channel(), 'body_size': marker,
+                 'props': {'headers': to_desc(t)}}
+        try:
+            return d, gen.encode_frame(d)
+        except Exception:
+            continue
+    d = {'k': 'heartbeat', 'ch': 0}
+    return d, gen.encode_frame(d)
+
+
 def pick_cuts(r, datas, density):
     """Cut positions as [frame, offset] pairs."""
     cuts = []
@@ -112,6 +142,16 @@ def corrupt_fault(r, k, data, kinds):
     elif kind == 'delete':
         o = aimed_offset()
         patches = [[o, r.randint(1, 4), '']]
+    elif kind == 'bad_utf8':
+        # invalid UTF-8 inside a short string, long string or table key
+        texts = [f for f in fm if f[2] in ('key', 'data') and f[1] > 0]
+        if texts:
+            f = r.choice(texts)
+            o = f[0] + r.randrange(f[1])
+        else:
+            o = aimed_offset()
+        patches = [[o, 1, '%02x' % r.choice([0xff, 0x80, 0xc0, 0xfe, 0xed,
+                                             0xf8])]]
     elif kind == 'truncate':
         # payload cut short, envelope rewritten: "buggy peer"
         keep = r.choice([7, 8, 9, 10, 11, 12, 15, 19, 20, 21,
@@ -160,7 +200,8 @@ def corrupt_fault(r, k, data, kinds):
 
 
 CORRUPT_KINDS = ['flip', 'overwrite', 'insert', 'delete', 'truncate',
-                 'field_rewrite', 'field_rewrite', 'field_rewrite']
+                 'bad_utf8', 'field_rewrite', 'field_rewrite',
+                 'field_rewrite']
 
 
 def gen_conn(r, g, population, cfg):
@@ -174,7 +215,11 @@ def gen_conn(r, g, population, cfg):
         datas.append(gen.encode_frame(d))
     for _ in range(nframes):
         cfg['marker'] += 1
-        d, data = encodable_frame(g, cfg['marker'], mix, cfg['max_body'])
+        if cfg.get('long') and r.random() < 0.6:
+            d, data = table_heavy_frame(r, g, cfg['marker'])
+        else:
+            d, data = encodable_frame(g, cfg['marker'], mix,
+                                      cfg['max_body'])
         frames.append(d)
         datas.append(data)
     conn = {'recv': r.choice(cfg['receivers']), 'frames': frames}
@@ -202,6 +247,13 @@ def gen_conn(r, g, population, cfg):
                 closes.append([k, o])
     conn['closes'] = closes
     faults = []
+    if population == 'long':
+        # a few damaged frames early in a long stream of valid ones
+        for _ in range(r.choice((0, 1, 2, 3))):
+            k = r.randrange(max(1, len(datas) // 3))
+            if len(datas[k]) >= 8:
+                faults.append(corrupt_fault(r, k, datas[k],
+                                            cfg['corrupt_kinds']))
     if population == 'corrupt':
         nf = r.choice((1, 1, 1, 2, 3))
         for _ in range(nf):
@@ -301,6 +353,17 @@ def gen_trace(rng, check, population, tier='quick'):
         cfg['corrupt_kinds'] = sorted(
             k for k in CORRUPT_KINDS if k in sub)
         cfg['nframes'] = r.choice([(1, 3), (1, 8), (5, 20)])
+    if population == 'long':
+        # long histories: state that accumulates over many decodes in one
+        # process (caches, pools) only shows after hundreds of frames/keys
+        g.max_str = 12
+        cfg['nframes'] = r.choice([(60, 120), (100, 200)])
+        cfg['mix'] = (('method', 6), ('header', 3), ('body', 1),
+                      ('heartbeat', 1))
+        cfg['max_body'] = 64
+        cfg['densities'] = r.choice([['none'], ['boundaries'], ['sparse']])
+        cfg['long'] = True
+        cfg['corrupt_kinds'] = sorted(set(CORRUPT_KINDS))
     conns = []
     if population == 'random':
         for _ in range(r.randint(1, 3)):
@@ -310,6 +373,9 @@ def gen_trace(rng, check, population, tier='quick'):
         maxlen = 2048 if tier == 'quick' else 140000
         for _ in range(r.randint(1, 3)):
             conns.append(gen_sweep_conn(r, g, cfg, maxlen))
+    elif population == 'long':
+        for _ in range(r.choice((1, 2, 3))):
+            conns.append(gen_conn(r, g, 'long', cfg))
     else:
         for _ in range(r.choice((1, 1, 2, 3, 4))):
             conns.append(gen_conn(r, g, population, cfg))
